@@ -66,25 +66,8 @@ Proof.
   cbn [fst snd hkey hval]. now rewrite (hval_text_final K k v (Hwf _ _ _ Hin)).
 Qed.
 
-Lemma obind_process_ok {X} m lg errs (x : X) l h :
-  obind (process m lg errs) (fun _ => oret x) = (l, Ok h) -> h = x.
-Proof.
-  unfold process. destruct errs as [|e0 errs]; [cbn; congruence|].
-  destruct m; cbn; congruence.
-Qed.
-
 Section RoundTrip.
   Context {C : Type} (registry : list (scheme C)).
-
-  (* whatever the stringency of the first parse was: if it returned a header,
-     its records are the expected ones *)
-  Lemma from_lines_ok_recs lines m lg l h :
-    header_from_lines registry lines m lg = (l, Ok h) ->
-    hrecs h = map (final_rec (fst (expected_header lines))) (fst (expected_header lines)).
-  Proof.
-    intros H. destruct (from_lines_spec_any_mode registry lines m lg) as [sch [_ Hf]].
-    cbv zeta in Hf. rewrite Hf in H. apply obind_process_ok in H. now subst h.
-  Qed.
 
   Theorem round_trip lines m lg lg' l h :
     header_from_lines registry lines m lg = (l, Ok h) ->
@@ -92,7 +75,7 @@ Section RoundTrip.
       header_from_lines registry (header_print_lines (hrecs h)) (Some Silent) lg' =
       ([], Ok {| hrecs := hrecs h; herrs := validate_errs registry (hrecs h) sch; hmode := Silent |}).
   Proof.
-    intros H. apply from_lines_ok_recs in H.
+    intros H. apply (from_lines_ok_recs registry) in H.
     set (K := fst (expected_header lines)) in *.
     assert (Hwf : forall p k v, In (p, k, v) K -> wf_pragma k v)
       by (intros p k v; apply expected_kept_wf).
@@ -112,7 +95,7 @@ Section RoundTrip.
     Forall (fun ln => ~ In LF ln) lines -> hrecs h <> [] ->
     split LF (header_print (hrecs h)) = header_print_lines (hrecs h).
   Proof.
-    intros H Hlf Hne. apply from_lines_ok_recs in H.
+    intros H Hlf Hne. apply (from_lines_ok_recs registry) in H.
     set (K := fst (expected_header lines)) in *.
     assert (Hwf : forall p k v, In (p, k, v) K -> wf_pragma k v)
       by (intros p k v; apply expected_kept_wf).
